@@ -17,6 +17,15 @@ P = {
  "C16": (True, "exploration", "runtime monitoring: reflection-computed expectation (element / error / element-or-error) for GetAttr over container x key x argument zoo, recorded Iterate callback traces checked for order, exactly-once and loop identities, cross-checked with Len/Contains/Is*",
          "Full product of the container, key and argument zoos (about 50k calls) plus template-level lookups; iteration traces at lengths 0..8 through 0..2 pointer levels with early breaks. A panic, a wrong element, a missing error or a trace anomaly is a violation.",
          "User types limited to the zoo's shapes; only one pointer level is required to work.", "DESIGN.md#c16"),
+ "C02": (True, "exploration", "runtime monitoring: executor step-budget hook + recover/crash-isolating workers over hostile generated programs x Go-value contexts and built-in filters x value zoo",
+         "Hand-written templates for every situation the statement names, every built-in filter x the whole value zoo x 21 argument lists (direct and through templates), and seeded hostile programs using every tag and operator with inheritance/include/embed/use/import; any panic, process death (stack), step or CPU budget overrun is a violation.",
+         "Template call graphs acyclic, range bounds small literals (both outside the claim); contexts limited to the zoo's shapes.", "DESIGN.md#c02"),
+ "C04": (True, "exploration", "runtime monitoring: metamorphic oracle - flat vs reference-parenthesised spelling (pinned operator table, precedence climbing) compared on parsed tree and on rendering under 3 valuations",
+         "Exhaustive over all chains of <=2 (quick) / <=4 (thorough) of the 27 binary operators in 8 decorations (unary prefixes, trailing/inner/nested conditional), random chains of 5..12 operators on top.",
+         "The pinned table is the documented one; rendering panics are left to C02.", "DESIGN.md#c04"),
+ "C05": (True, "exploration", "runtime monitoring: reference evaluator (executable model) compared on printed value, error-or-not and the recorded callback log of a recording environment",
+         "Exhaustive depth-1 operator x operand table plus typed random expression trees (depth<=4 quick, <=6 thorough) with recording functions/filters/tests; the callback log must match exactly (name, arguments in order, piped value first).",
+         "The model encodes the documented semantics inside the agreement region; trees it refuses are regenerated.", "DESIGN.md#c05"),
 }
 NOT_BUILT_REASON = "check not built yet in this round (planned: see DESIGN.md section for this property)"
 
